@@ -80,14 +80,24 @@ structure SRelC (M : List (Handle × CItem)) (T T' : Tables) : Prop where
   seen : ∀ h, seenC T h ≤ seenC T' h
   chg : ∀ h a b, findC T h = some a → findC T' h = some b → a = b ∨ a.sv < b.sv
   src : ∀ h b, findC T' h = some b → findC T h = some b ∨ ∃ p ∈ M, p.1 = h ∧ p.2.new = some b
+  keep : (∀ p ∈ M, p.2.new ≠ none) → ∀ h a, findC T h = some a → (findC T' h).isSome
 
 theorem SRelC.of_apply {M : List (Handle × CItem)} {T : Tables} (hi : CItemsOK true T M) : SRelC M T (applyCItems T M).1 := by
-  refine ⟨applyCItems_frame T M, applyCItems_seenC hi, fun h a b ha hb => applyCItems_change hi ha hb, ?_⟩
-  intro h b hb
-  rw [applyCItems_findC hi] at hb
-  cases hg : dictGet M h with
-  | none => rw [hg] at hb; exact .inl hb
-  | some it => rw [hg] at hb; exact .inr ⟨(h, it), dictGet_some_mem hg, rfl, hb⟩
+  refine ⟨applyCItems_frame T M, applyCItems_seenC hi, fun h a b ha hb => applyCItems_change hi ha hb, ?_, ?_⟩
+  · intro h b hb
+    rw [applyCItems_findC hi] at hb
+    cases hg : dictGet M h with
+    | none => rw [hg] at hb; exact .inl hb
+    | some it => rw [hg] at hb; exact .inr ⟨(h, it), dictGet_some_mem hg, rfl, hb⟩
+  · intro hnd h a ha
+    rw [applyCItems_findC hi]
+    cases hg : dictGet M h with
+    | none => simp [ha]
+    | some it =>
+      simp only
+      cases hn : it.new with
+      | none => exact absurd hn (hnd _ (dictGet_some_mem hg))
+      | some n => rfl
 
 /-- what is known between two of the five single-state dicts: the items `L` whose kind is in `done` have been written -/
 structure SB (L : List (Handle × SItem)) (done : List Kind) (C : Handle → Prop) (T : Tables) : Prop where
@@ -195,13 +205,14 @@ structure CommitRel (X : DTx) (T T' : Tables) : Prop where
   srcS : ∀ h b, findS T' h = some b → findS T h = some b ∨ h ∈ X.sItems.map (·.1)
   chgC : ∀ h a b, findC T h = some a → findC T' h = some b → a = b ∨ a.sv < b.sv
   srcC : ∀ h b, findC T' h = some b → findC T h = some b ∨ ∃ p ∈ X.cItems, p.1 = h ∧ p.2.new = some b
+  keepC : (∀ p ∈ X.cItems, p.2.new ≠ none) → ∀ h a, findC T h = some a → (findC T' h).isSome
 
 theorem CommitRel.mk3 {X : DTx} {A B C D : Tables} (r1 : SRelS X.sItems A B) (r2 : SRelC X.cItems B C) (r3 : SRelS X.sItems C D) :
     CommitRel X A D := by
   have fSB : ∀ h, findS C h = findS B h := fun h => by simp [findS, r2.fr.2.1]
   have fCA : ∀ h, findC B h = findC A h := fun h => by simp [findC, r1.fr.2.1]
   have fCD : ∀ h, findC D h = findC C h := fun h => by simp [findC, r3.fr.2.1]
-  refine ⟨r3.fr.1.trans (r2.fr.1.trans r1.fr.1), r3.fr.2.2.1.trans (r2.fr.2.2.1.trans r1.fr.2.2.1), ?_, ?_, ?_, ?_, ?_, ?_⟩
+  refine ⟨r3.fr.1.trans (r2.fr.1.trans r1.fr.1), r3.fr.2.2.1.trans (r2.fr.2.2.1.trans r1.fr.2.2.1), ?_, ?_, ?_, ?_, ?_, ?_, ?_⟩
   · intro h
     refine optLe_trans (r1.seen h) (optLe_trans ?_ (r3.seen h))
     rw [seenS_congr r2.fr.2.1 r2.fr.2.2.2]; exact optLe_refl _
@@ -229,6 +240,9 @@ theorem CommitRel.mk3 {X : DTx} {A B C D : Tables} (r1 : SRelS X.sItems A B) (r2
     rcases r2.src h b hb with hc | hk
     · rw [fCA] at hc; exact .inl hc
     · exact .inr hk
+  · intro hnd h a ha
+    rw [fCD]; rw [← fCA] at ha
+    exact r2.keep hnd h a ha
 
 theorem pendUpd_nil (x : Handle) : ¬ pendUpd [] x := by rintro ⟨o, n, h⟩; cases h
 
